@@ -30,6 +30,20 @@ ShardsH == [c \in CollsH |-> IF c = "c1" THEN <<"sa_101v0">> ELSE IF c = "c2" TH
 SrcPH == ("sa_101v0" :> "sa") @@ ("sb_102v0" :> "sb") @@ ("sa_103v0" :> "sa")
 TgtQH == ("sa_101v0" :> "ta") @@ ("sb_102v0" :> "ta") @@ ("sa_103v0" :> "tb")
 ScriptH == [s \in DOMAIN SrcPH |-> IF s = "sa_101v0" THEN << PackA >> ELSE IF s = "sb_102v0" THEN << PackB, PackT >> ELSE << PackU >>]
+\* a collection is dropped while the others go on: the drop-collection message is the last thing its shards carry
+PackDC == << M("ins", "_default", 1), M("dropc", "", 2) >>
+ScriptXd == [s \in DOMAIN SrcPX |->
+   IF s = "sa_101v0" THEN << PackA, PackDC >>
+   ELSE IF s = "sb_101v1" THEN << PackDC >>
+   ELSE IF s = "sa_102v0" THEN << PackU, PackB, PackA >>
+   ELSE << PackA, PackB >>]
+\* crossed placement of three one-shard collections: c1 sa->tb, c2 sb->ta, c3 sa->ta (forwarded to c2's handler);
+\* replayed with distinct channel names and with the same names on both clusters (sa = ta, sb = tb)
+CollsZ == {"c1", "c2", "c3"}
+ShardsZ == [c \in CollsZ |-> IF c = "c1" THEN <<"sa_101v0">> ELSE IF c = "c2" THEN <<"sb_102v0">> ELSE <<"sa_103v0">>]
+SrcPZ == ("sa_101v0" :> "sa") @@ ("sb_102v0" :> "sb") @@ ("sa_103v0" :> "sa")
+TgtQZ == ("sa_101v0" :> "tb") @@ ("sb_102v0" :> "ta") @@ ("sa_103v0" :> "ta")
+ScriptZ == [s \in DOMAIN SrcPZ |-> IF s = "sa_101v0" THEN << PackA >> ELSE IF s = "sb_102v0" THEN << PackB, PackT >> ELSE << PackU, PackA >>]
 NoDrops == {}
 DropP1 == {<<"c1", "p1">>, <<"c2", "p1">>, <<"c3", "p1">>}
 =============================================================================
